@@ -113,6 +113,10 @@ func vProbe10(kind int, tx, ty float64) Object {
 		return NewGeometryCollection([]Object{NewPoint(p(0, 0)), vLineObj(p(1, 0), p(1, 1)), NewPolygon(nil)})
 	case 6: // empty part first, and a feature wrapping an empty collection last
 		return NewGeometryCollection([]Object{vLineObj(p(3, 3)), NewPoint(p(0, 0)), NewFeature(NewGeometryCollection(nil), "")})
+	case 9: // nested multi-part probe: a MultiPoint with a far-away part first, then a plain point
+		return NewGeometryCollection([]Object{NewMultiPoint([]geometry.Point{p(50, 50), p(0, 0)}), NewPoint(p(1, 0))})
+	case 10: // the same with the nested member last
+		return NewGeometryCollection([]Object{NewPoint(p(1, 0)), NewGeometryCollection([]Object{NewPoint(p(0, 0)), vLineObj(p(50, 50), p(51, 50))})})
 	case 7: // a rectangle large enough to hold every fixed child configuration
 		return NewRect(geometry.Rect{Min: p(0, 0), Max: p(12, 12)})
 	case 8: // a large triangle
@@ -163,6 +167,17 @@ func H_Coll(p []int) {
 		vAssert(obj.Rect() == box, "C10.rect")
 	}
 	vAssert(obj.NumPoints() == npts, "C10.num-points")
+	// ForEach honours an early stop: stopping at the first leaf visits exactly one leaf and reports false
+	{
+		visits := 0
+		done := X.ForEach(func(g Object) bool { visits++; return false })
+		vAssert(visits == 1 && !done, "C10.foreach-stop-probe")
+		if len(kids) > 0 {
+			v2 := 0
+			d2 := obj.ForEach(func(g Object) bool { v2++; return false })
+			vAssert(v2 <= 1 && (v2 == 0 || !d2), "C10.foreach-stop-collection")
+		}
+	}
 	vAssert(len(kids) == len(children), "C10.children-count")
 	wantIndexed := false
 	nonEmpty := 0
